@@ -104,7 +104,118 @@ fn judge(t: &Term, st: &mut Stats) {
     }
 }
 
+
+// ------------------------------------------------------------------ siblings: "provided the type fits"
+//
+// The renderer's size limits belong to a nesting depth, not to what was rendered before: a field that is
+// rendered in full next to a trivial sibling fits the limit of its position. A record `{x: X, y?: Y}` whose
+// two fields each fit next to `integer` must therefore be rendered without truncation (and read back equal).
+// Without this, "skipped: truncated" would also excuse a renderer that truncates what fits.
+
+/// types at and around the per-level limits (records of n fields, unions of n members, nesting)
+fn wide_family() -> Vec<&'static str> {
+    let mut v: Vec<String> = Vec::new();
+    for n in [1usize, 2, 3, 4, 5, 6, 8, 9] {
+        v.push(format!("{{{}}}", (0..n).map(|i| format!("f{i}: {}", i + 1)).collect::<Vec<_>>().join(", ")));
+    }
+    for n in [2usize, 3, 4, 5, 6, 7] {
+        v.push((1..=n).map(|i| i.to_string()).collect::<Vec<_>>().join("|"));
+    }
+    v.push("table<string, {a: 1, b: 2, c: 3}>".into());
+    v.push("{a: {b: {c: 1}}}".into());
+    v.push("{a: 1|2|3, b: string[]}".into());
+    v.into_iter().map(|s| &*Box::leak(s.into_boxed_str())).collect()
+}
+
+#[derive(Debug, PartialEq)]
+enum Sib {
+    Ok,
+    Skipped,
+    Undecided,
+    Differs(String),
+    TruncatedAlthoughFits(String),
+}
+
+fn obj_text(x: &str, y: &str) -> String {
+    format!("{{x: {x}, y?: {y}}}")
+}
+
+fn eval_siblings(w: &mut W, x: &str, y: &str) -> Sib {
+    let whole = obj_text(x, y);
+    match eval(w, &whole) {
+        V17::Same => Sib::Ok,
+        V17::DisplayOnly | V17::Unresolved => Sib::Undecided,
+        V17::Differs { render, original, readback } => Sib::Differs(format!("`{whole}` is rendered `{render}`, which reads back as {readback} instead of {original}")),
+        V17::Truncated => {
+            let alone_x = eval(w, &obj_text(x, "integer"));
+            let alone_y = eval(w, &obj_text("integer", y));
+            if alone_x == V17::Same && alone_y == V17::Same {
+                let t = w.ty(&whole);
+                let r = t.map(|t| w.render(&t)).unwrap_or_default();
+                Sib::TruncatedAlthoughFits(format!("`{whole}` is rendered `{r}` (truncated), although `{}` and `{}` are each rendered in full and read back equal: both fields fit the size limit of their position", obj_text(x, "integer"), obj_text("integer", y)))
+            } else {
+                Sib::Skipped
+            }
+        }
+    }
+}
+
+fn judge_siblings(x: &Term, y: &'static str, x_first: bool, st: &mut Stats) {
+    let (xs, ys) = if x_first { (x.render(), y.to_string()) } else { (y.to_string(), x.render()) };
+    st.eval(true);
+    let r = with_ws(|w| eval_siblings(w, &xs, &ys));
+    match r {
+        Err(_) => {
+            st.undecided += 1;
+            st.outcome("panic (reported under C12)");
+        }
+        Ok(Sib::Ok) => st.outcome("siblings: reads back equal"),
+        Ok(Sib::Skipped) => st.outcome("siblings: skipped, a field is truncated on its own (size limit)"),
+        Ok(Sib::Undecided) => {
+            st.undecided += 1;
+            st.outcome("siblings: undecided");
+        }
+        Ok(Sib::Differs(_)) | Ok(Sib::TruncatedAlthoughFits(_)) => {
+            let sig = if matches!(r, Ok(Sib::Differs(_))) { "readback-differs" } else { "truncated-although-fits" };
+            st.outcome(&format!("siblings: {sig}"));
+            let same = |w: &mut W, xs: &str, ys: &str| match eval_siblings(w, xs, ys) {
+                Sib::Differs(_) => sig == "readback-differs",
+                Sib::TruncatedAlthoughFits(_) => sig == "truncated-although-fits",
+                _ => false,
+            };
+            // shrink the generated side structurally; the wide side is replaced by the first (smallest) family member that still fails
+            let mut fails = |c: &[Term]| {
+                let t = c[0].render();
+                let (a, b) = if x_first { (t, y.to_string()) } else { (y.to_string(), t) };
+                matches!(with_ws(|w| same(w, &a, &b)), Ok(true))
+            };
+            let min = minimise_terms(std::slice::from_ref(x), SIMPLE, &mut fails);
+            let mx = min[0].render();
+            let my = wide_family()
+                .into_iter()
+                .find(|cand| {
+                    let (a, b) = if x_first { (mx.clone(), cand.to_string()) } else { (cand.to_string(), mx.clone()) };
+                    matches!(with_ws(|w| same(w, &a, &b)), Ok(true))
+                })
+                .unwrap_or(y);
+            let (a, b) = if x_first { (mx, my.to_string()) } else { (my.to_string(), mx) };
+            let detail = match with_ws(|w| eval_siblings(w, &a, &b)) {
+                Ok(Sib::Differs(d)) | Ok(Sib::TruncatedAlthoughFits(d)) => d,
+                _ => String::new(),
+            };
+            st.violation(Violation { signature: sig.into(), witness: json!({"x": a, "y": b}), detail });
+        }
+    }
+}
+
 pub fn replay(w: &Value) -> Option<Violation> {
+    if let (Some(x), Some(y)) = (w["x"].as_str(), w["y"].as_str()) {
+        return match with_ws(|ws| eval_siblings(ws, x, y)) {
+            Ok(Sib::Differs(d)) => Some(Violation { signature: "readback-differs".into(), witness: w.clone(), detail: d }),
+            Ok(Sib::TruncatedAlthoughFits(d)) => Some(Violation { signature: "truncated-although-fits".into(), witness: w.clone(), detail: d }),
+            _ => None,
+        };
+    }
     let text = w["type"].as_str()?;
     match with_ws(|ws| eval(ws, text)) {
         Ok(V17::Differs { render, original, readback }) => Some(Violation {
@@ -151,11 +262,31 @@ pub fn run(args: &Args) -> ! {
             break;
         }
     }
+    // sibling phase: every term of depth ≤ 1 next to every member of the wide family, in both field positions
+    let wide = wide_family();
+    let mut sib_done = false;
+    if completed == Some(max_depth) {
+        let mut xs: Vec<Term> = bases.clone();
+        xs.extend(grow(&bases, &[], &bases));
+        let n = (xs.len() * wide.len() * 2) as u64;
+        let (st, ok) = par_range(n, args.threads, &dl, |i, st| {
+            let i = i as usize;
+            let x = &xs[i / (wide.len() * 2)];
+            let y = wide[(i / 2) % wide.len()];
+            if i % 9001 == 5 {
+                st.sample(|| json!({"phase": "siblings", "x": x.render(), "y": y, "x_first": i % 2 == 0}));
+            }
+            judge_siblings(x, y, i % 2 == 0, st);
+        });
+        all.merge(st);
+        sib_done = ok;
+        sizes.push(n as usize);
+    }
     rep.rule = format!(
-        "every annotation term of depth <= {max_depth} over {} bases {:?} and the constructors T?, T[], T|U, table<K,V>, {{x:T, y?:U}} (depth 1: all base pairs; deeper: the previous level paired with {:?} on either side): humanize_type(.., Documentation) of ty(term), written after `---@type`, must denote a type with the same structural canonical form (union members as a set). Skipped: renders with `...`; undecided: expanded class view. Violations are re-executed and shrunk structurally.",
+        "every annotation term of depth <= {max_depth} over {} bases {:?} and the constructors T?, T[], T|U, table<K,V>, {{x:T, y?:U}} (depth 1: all base pairs; deeper: the previous level paired with {:?} on either side): humanize_type(.., Documentation) of ty(term), written after `---@type`, must denote a type with the same structural canonical form (union members as a set). Skipped: renders with `...`; undecided: expanded class view. Violations are re-executed and shrunk structurally. Sibling phase: every term of depth <= 1 as one field of `{{x: X, y?: Y}}` next to every member of a family of types at and around the per-level size limits (records of 1-9 fields, unions of 2-7 members, nested tables), in both positions: when each field is rendered in full next to `integer`, the record must be rendered without `...` and read back equal (a truncated render is skipped only if a field is truncated on its own).",
         BASES17.len(), BASES17, SMALL17
     );
-    rep.exhaustive = completed == Some(max_depth);
+    rep.exhaustive = completed == Some(max_depth) && sib_done;
     rep.bounds = json!({"depth_target": max_depth, "depth_completed": completed, "terms_per_depth": sizes, "wall_cap_hit": dl.was_hit()});
     rep.assumptions = vec![
         "function and tuple types are outside the statement and not generated; `unknown` is display-only (not an annotation keyword) and not generated".into(),
